@@ -1,13 +1,14 @@
 #!/bin/bash
-# eval_seeds.sh <ID>... : run each property's check against /tmp/seed-<ID>/patch.diff (applied to /repo, undone straight afterwards)
+# eval_seeds.sh <ID>... : run each property's check against /tmp/seed-<ID>/patch.diff applied to a scratch copy of /repo
+# (never touches /repo itself, so checks running concurrently are not disturbed)
 for p in "$@"; do
   echo "## $p"
-  if git -C /repo apply /tmp/seed-$p/patch.diff; then
-    (cd /verif && ./check $p | grep -E "key:|^OK|^VIOLATION" | cut -c1-220)
-    git -C /repo checkout -- .
-    git -C /repo clean -fdq -- src
+  d=$(mktemp -d /tmp/evalseed-XXXXXX)
+  rsync -a --exclude /target --exclude /.git /repo/ $d/repo/
+  if (cd $d/repo && patch -p1 -s < /tmp/seed-$p/patch.diff); then
+    (cd /verif && VERIF_REPO=$d/repo VERIF_EVIDENCE_DIR=$d/evidence VERIF_OUT_DIR=$d/out VERIF_FACTS_DIR=$d/facts VERIF_FACTS_LABEL=seed VERIF_NO_SELFTEST=1 ./check ${p:0:3} | grep -E "key:|^OK|^VIOLATION" | cut -c1-220)
   else
     echo "PATCH DOES NOT APPLY"
   fi
+  rm -rf $d
 done
-git -C /repo status --short
